@@ -1089,3 +1089,59 @@ def paths_to(body, start, targets, stop=(), g=None, limit=200):
 def is_ovf_atom(atom):
     """an atom about the overflow flag of a checked arithmetic operation (`(a + b).1`): says nothing about the values in range"""
     return any(isinstance(y, tuple) and contains(y, lambda s_: s_[0] == "field" and str(s_[2]) == "1" and s_[1][0] == "binop" and s_[1][1].endswith("WithOverflow")) for y in atom[1:])
+
+
+def storage_layout(ctx, rule, g):
+    """PartialDSet / SimpleDSet keep op(i, d) in one vector: new() allocates size * (dim + 1) cells, idx(i, d) is a bijection from
+    (0..=dim) x (1..=size) onto the cells, grow(count) adds count to size and appends exactly count * (dim + 1) empty cells (so that the
+    bijection holds again for the new size).  Decided by evaluating the expressions for dim 1..3, size 1..4, count 0..2."""
+    F = ctx.facts
+    idxs = [F.bodies.get("dsets::PartialDSet::idx"), F.bodies.get("dsets::SimpleDSet::idx")]
+    nb, gb = F.bodies.get("dsets::PartialDSet::new"), F.bodies.get("dsets::PartialDSet::grow")
+    if None in idxs or nb is None or gb is None:
+        raise AnchorMissing("dsets storage functions")
+    ctx.scan(idxs + [nb, gb])
+    bad = None
+    alloc = None
+    for bi, t in nb.calls("vec::from_elem"):
+        a = [strip(norm(nb.origin(x), g)) for x in t["args"]]
+        if a[0] == ("int", 0):
+            alloc = a[1]
+    if alloc is None:
+        bad = "new() does not allocate a zero-filled vector"
+    grow_cells = None
+    for bi, t in gb.calls("vec::from_elem"):
+        a = [strip(norm(gb.origin(x), g)) for x in t["args"]]
+        if a[0] == ("int", 0):
+            grow_cells = a[1]
+    appended = any(strip(norm(gb.origin(t["args"][0]), g)) == ("field", ("param", 1, gb.debug.get(1, "")), "op") for bi, t in gb.calls("::append")) or \
+        any(t["callee"].get("def", "").endswith("::resize") or t["callee"].get("def", "").endswith("Extend::extend") for bi, t in gb.calls())
+    new_size = None
+    for bi, si, s in gb.assigns():
+        if any(e.get("k") == "field" and e.get("name") == "size" for e in s["place"]["p"]):
+            new_size = norm(gb.rv_origin(s["rv"]), g)
+    if not bad and (grow_cells is None or not appended or new_size is None):
+        bad = "grow() does not (append zero cells to op and update size)"
+    n = 0
+    if not bad:
+        for dim in (1, 2, 3):
+            for size in (1, 2, 3, 4):
+                cells = eval_term_env(alloc, {("param", 1, nb.debug.get(1, "")): size, ("param", 2, nb.debug.get(2, "")): dim})
+                if cells != size * (dim + 1):
+                    bad = bad or "new(%d, %d) allocates %s cells, not size * (dim + 1) = %d" % (size, dim, cells, size * (dim + 1))
+                for ib in idxs:
+                    me = ("param", 1, ib.debug.get(1, ""))
+                    r = norm(ib.local_origin(0), g)
+                    got = sorted(eval_term_env(r, {("field", me, "dim"): dim, ("param", 2, ib.debug.get(2, "")): i, ("param", 3, ib.debug.get(3, "")): d}) if True else None
+                                 for i in range(dim + 1) for d in range(1, size + 1))
+                    n += 1
+                    if got != list(range(size * (dim + 1))):
+                        bad = bad or "%s is not a bijection onto the %d cells for dim %d, size %d: cells %s" % (ib.name.split("::")[-2] + "::idx", size * (dim + 1), dim, size, got[:8])
+                me = ("param", 1, gb.debug.get(1, ""))
+                for count in (0, 1, 2):
+                    env = {("field", me, "size"): size, ("field", me, "dim"): dim, ("call", "dsets::DSet::dim", (me,)): dim, ("param", 2, gb.debug.get(2, "")): count}
+                    ns, nc = eval_term_env(new_size, env), eval_term_env(grow_cells, env)
+                    if ns != size + count or nc != count * (dim + 1):
+                        bad = bad or "grow(%d) on a set of size %d, dim %d sets size to %s and appends %s cells; expected %d and %d" % (count, size, dim, ns, nc, size + count, count * (dim + 1))
+    ctx.ob(rule, "dsets::PartialDSet", "new / idx / grow", "ok" if not bad and n else "violation",
+           "size * (dim + 1) cells, idx a bijection onto them, grow keeps both (evaluated for dim 1..3, size 1..4, count 0..2)" if not bad and n else (bad or "nothing evaluated"))
